@@ -38,11 +38,20 @@ def parseObs (t : List String) : Obs F × List String :=
   let st := Status.ofCode (t.getD 0 "-1").toInt!
   let its := (t.getD 1 "0").toNat!
   let any := (t.getD 2 "0") == "1"; let lim := (t.getD 3 "0") == "1"; let thr := (t.getD 4 "0") == "1"
-  let nin := hexToFloat (t.getD 5 "0"); let nout := hexToFloat (t.getD 6 "0")
-  (⟨st, any, lim, its, nin, ofNaN nout, thr⟩, t.drop 7)
+  let rst := (t.getD 5 "0") == "1"
+  let nin := hexToFloat (t.getD 6 "0"); let nout := hexToFloat (t.getD 7 "0")
+  (⟨st, any, lim, its, nin, ofNaN nout, thr, rst⟩, t.drop 8)
 
-def fmtResult (fn : String) (normIn : F) (worst : Int) (st : Status) (its : Nat) (any lim thr : Bool) (nout : Option F) : String :=
-  s!"O {fn} {floatToHex normIn} {worst} {st.code} {its} {b2s any} {b2s lim} {b2s thr} {floatToHex (optF nout)}"
+/-- `|a − b| ≤ 1e-12·|b|`: a decision that a different summation order / FMA could flip; then nothing is predicted -/
+def nearF (a b : F) : Bool := (a - b).abs ≤ 1e-12 * b.abs
+
+def limitNear (limit : Option F) (n : F) : Bool := match limit with | none => false | some l => nearF n l
+
+def fmtResult (fn : String) (normIn : F) (worst : Int) (st : Status) (its : Nat) (any lim thr rst : Bool) (nout : Option F) : String :=
+  s!"O {fn} {floatToHex normIn} {worst} {st.code} {its} {b2s any} {b2s lim} {b2s thr} {b2s rst} {floatToHex (optF nout)}"
+
+def fmtObs (fn : String) (normIn : F) (worst : Int) (ob : Obs F) : String :=
+  fmtResult fn normIn worst ob.status ob.its ob.anyChange ob.limitExceeded ob.threw ob.restored ob.normOut
 
 def handleProjQ (t : List String) : String :=
   let p := parseOpts t
@@ -61,10 +70,14 @@ def handleProjQ (t : List String) : String :=
   let orc : OracleQ F := { perr0 := perr0, w := tp, quat0 := quat0, chgA := ob.anyChange, quatA := quatAfter,
                            perrIt := fun _ => [], perrBack := fun _ => [], chgB := false, quatB := [] }
   let res := runQ sqrtF o orc
-  if res.its == 0 then
-    fmtResult "projQ" e.normIn e.worst res.status res.its res.anyChange res.limitExceeded res.threw res.normOut
-  else if acceptsQ o ob then
-    fmtResult "projQ" e.normIn e.worst ob.status ob.its ob.anyChange ob.limitExceeded ob.threw ob.normOut
+  -- a decision within 1e-12 relative of its threshold is not predicted (the harness tags the record `boundary`)
+  if nearF e.perrIn o.acc || nearF e.quatIn o.acc || limitNear o.limit e.normIn then fmtObs "projQ" e.normIn e.worst ob
+  else if res.its == 0 then
+    -- `restored`: predicted when the skeleton does not touch q; after a quaternion-only normalisation the bits may or
+    -- may not change, the observed value is echoed
+    fmtResult "projQ" e.normIn e.worst res.status res.its res.anyChange res.limitExceeded res.threw
+      (if res.normalized then ob.restored else true) res.normOut
+  else if acceptsQ o mQuats e.perrIn e.quatIn ob then fmtObs "projQ" e.normIn e.worst ob
   else "O projQ REJECT"
 
 def handleProjU (t : List String) : String :=
@@ -78,10 +91,10 @@ def handleProjU (t : List String) : String :=
   let e := normW sqrtF o.useInf (scale uerr0 tpv)
   let orc : OracleU F := { verr0 := uerr0, w := tpv, verrIt := fun _ => [], verrBack := fun _ => [] }
   let res := runU sqrtF o orc
-  if res.its == 0 then
-    fmtResult "projU" e.1 e.2 res.status res.its res.anyChange res.limitExceeded res.threw res.normOut
-  else if acceptsU o ob then
-    fmtResult "projU" e.1 e.2 ob.status ob.its ob.anyChange ob.limitExceeded ob.threw ob.normOut
+  if nearF e.1 o.acc || limitNear o.limit e.1 then fmtObs "projU" e.1 e.2 ob
+  else if res.its == 0 then
+    fmtResult "projU" e.1 e.2 res.status res.its res.anyChange res.limitExceeded res.threw true res.normOut
+  else if acceptsU o e.1 ob then fmtObs "projU" e.1 e.2 ob
   else "O projU REJECT"
 
 /-- one hook event `event iter n vals[n]` -/
@@ -119,7 +132,8 @@ def handleProjQt (t : List String) : String :=
       perrIt := fun i => findEv evs 1 (i + 1), perrBack := fun i => findEv evs 2 (i + 1),
       chgB := (b.map (·.iter)).getD 0 == 1, quatB := (b.map (·.vals)).getD [] }
   let res := runQ sqrtF p.o orc
-  fmtResult "projQt" (optF res.normIn) res.worst res.status res.its res.anyChange res.limitExceeded res.threw res.normOut
+  fmtResult "projQt" (optF res.normIn) res.worst res.status res.its res.anyChange res.limitExceeded res.threw
+    ((res.obs 0).restored) res.normOut
 
 def handleProjUt (t : List String) : String :=
   let p := parseOpts t
@@ -131,7 +145,8 @@ def handleProjUt (t : List String) : String :=
   let orc : OracleU F :=
     { verr0 := findEv evs 0 0, w := tpv, verrIt := fun i => findEv evs 1 (i + 1), verrBack := fun i => findEv evs 2 (i + 1) }
   let res := runU sqrtF p.o orc
-  fmtResult "projUt" (optF res.normIn) res.worst res.status res.its res.anyChange res.limitExceeded res.threw res.normOut
+  fmtResult "projUt" (optF res.normIn) res.worst res.status res.its res.anyChange res.limitExceeded res.threw
+    ((res.obs 0).restored) res.normOut
 
 def handleNormq (t : List String) : String :=
   let v := t.map hexToFloat
@@ -149,21 +164,64 @@ def rowsOf (m n : Nat) (xs : List F) : List (List F) := (List.range m).map (fun 
 
 def maxAbsL (xs : List F) : F := xs.foldl (fun a x => if x.abs > a then x.abs else a) 0
 
+def certOk (M : List (List F)) (lam rhs : List F) : Bool :=
+  let resid := List.zipWith (· - ·) (mulVecL M lam) rhs
+  maxAbsL resid ≤ 1e-9 * (if maxAbsL rhs > 1e-300 then maxAbsL rhs else 1e-300)
+
 def handleMinnorm (t : List String) : String :=
-  -- which m n nf free… A[m*n] tp[m] winv[n] b[m]
+  -- which m n nf free… A[m*n] tp[m] Wu[n] u0[n] b[m]
+  let which := t.getD 0 "q"
   let m := (t.getD 1 "0").toNat!; let n := (t.getD 2 "0").toNat!; let nf := (t.getD 3 "0").toNat!
   let free := ((t.drop 4).take nf).map String.toNat!
   let fl := (t.drop (4 + nf)).map hexToFloat
   let A := rowsOf m n (fl.take (m * n))
   let tp := (fl.drop (m * n)).take m
-  let winv := (fl.drop (m * n + m)).take n
-  let b := (fl.drop (m * n + m + n)).take m
+  let wu := (fl.drop (m * n + m)).take n
+  let u0 := (fl.drop (m * n + m + n)).take n
+  let b := (fl.drop (m * n + m + 2 * n)).take m
+  -- column scale: position level `Wu⁻¹`; velocity level projectU's relative scale `uRelScale(u0, Wu)`
+  let winv := if which == "u" then uRelScale u0 wu else invertAll wu
   let r := minNormStep n free A tp winv b
   -- certificate: the multipliers must solve  (A' A'ᵀ) λ = Tp b  (then `min_norm_of_multiplier` applies)
-  let rhs := List.zipWith (· * ·) tp b
-  let resid := List.zipWith (· - ·) (mulVecL r.2.2 r.2.1) rhs
-  let ok := maxAbsL resid ≤ 1e-9 * (if maxAbsL rhs > 1e-300 then maxAbsL rhs else 1e-300)
-  if ok then fmtFloats "O minnorm" r.1 else "O minnorm ERR"
+  if certOk r.2.2 r.2.1 (List.zipWith (· * ·) tp b) then fmtFloats "O minnorm" r.1 else "O minnorm ERR"
+
+def handleMinnormN (t : List String) : String :=
+  -- m nq nu nf free… Pq[m*nq] N[nq*nu] NInv[nu*nq] tp[m] Wu[nu] b[m]
+  let m := (t.getD 0 "0").toNat!; let nq := (t.getD 1 "0").toNat!; let nu := (t.getD 2 "0").toNat!
+  let nf := (t.getD 3 "0").toNat!
+  let free := ((t.drop 4).take nf).map String.toNat!
+  let fl := (t.drop (4 + nf)).map hexToFloat
+  let Pq := rowsOf m nq (fl.take (m * nq)); let fl := fl.drop (m * nq)
+  let Nm := rowsOf nq nu (fl.take (nq * nu)); let fl := fl.drop (nq * nu)
+  let NInv := rowsOf nu nq (fl.take (nu * nq)); let fl := fl.drop (nu * nq)
+  let tp := fl.take m; let wu := (fl.drop m).take nu; let b := (fl.drop (m + nu)).take m
+  let r := minNormStepN nq nu free Pq Nm NInv tp (invertAll wu) b
+  if certOk r.2.2 r.2.1 (List.zipWith (· * ·) tp b) then fmtFloats "O minnormN" r.1 else "O minnormN ERR"
+
+def handleDispatch (t : List String) : String :=
+  -- acc threwQ threwU
+  let acc := hexToFloat (t.getD 0 "0")
+  let o := defaultOpts (1e-4 : F) 0.1 0.0 acc
+  let thr := projectThrows ((t.getD 1 "0") == "1") ((t.getD 2 "0") == "1")
+  let flags := (if o.localOnly then 1 else 0) + (if o.dontThrow then 2 else 0) + (if o.useInf then 4 else 0) + (if o.force then 8 else 0)
+  let lim : F := match o.limit with | none => 1.0 / 0.0 | some l => l
+  s!"O dispatch {floatToHex o.acc} {floatToHex o.overshoot} {floatToHex lim} {flags} {b2s thr} 1"
+
+def quatOf (v : List F) : Quat F := ⟨v.getD 0 0, v.getD 1 0, v.getD 2 0, v.getD 3 0⟩
+def quatL (q : Quat F) : List F := [q.w, q.x, q.y, q.z]
+
+def handleNormqP (t : List String) : String :=
+  -- free1 free2 q1(4) q2(4)
+  let f1 := (t.getD 0 "0") == "1"; let f2 := (t.getD 1 "0") == "1"
+  let v := (t.drop 2).map hexToFloat
+  let r := normalizeQuatsMasked sqrtF [(f1, quatOf (v.take 4)), (f2, quatOf (v.drop 4))]
+  fmtFloats "O normqP" (r.foldr (fun p acc => quatL p.2 ++ acc) [])
+
+def handleErrq (t : List String) : String :=
+  -- quat(4) errest(4): normalise, then remove the error estimate's component along the unit quaternion
+  let v := t.map hexToFloat
+  let qn := normalizeQuat sqrtF (quatOf (v.take 4))
+  fmtFloats "O errq" (quatL qn ++ quatL (projectErrEst qn (quatOf (v.drop 4))))
 
 def main : IO Unit := do
   let lines ← readStdinLines
@@ -181,6 +239,10 @@ def main : IO Unit := do
         else if fn == "normq" then handleNormq args
         else if fn == "packQ" || fn == "packU" then handlePack fn args
         else if fn == "minnorm" then handleMinnorm args
+        else if fn == "minnormN" then handleMinnormN args
+        else if fn == "dispatch" then handleDispatch args
+        else if fn == "normqP" then handleNormqP args
+        else if fn == "errq" then handleErrq args
         else "O " ++ fn ++ " ERR"
       out.putStrLn ans
     | _ => pure ()
